@@ -116,6 +116,22 @@ def rows_of(out):
 # ---------------------------------------------------------------------------------------------
 # Metropolis
 # ---------------------------------------------------------------------------------------------
+def eff_x0(sc):
+    """the start as numbers (float64): integer starts are the rounded values"""
+    v = np.array(sc["x0"], dtype=float)
+    if sc.get("x0dt") == "int64":
+        return np.round(v) + 0.0          # (+ 0.0: no negative zero - an integer array has none)
+    if sc.get("x0dt") == "float32":
+        return v.astype(np.float32).astype(float)
+    return v
+
+
+def start_obj(sc):
+    """the object handed to the kernel as params0: a float64 array, or the SAME numbers as an int64 / float32 array (every
+    start used here is exactly representable in all three)"""
+    return eff_x0(sc).astype(sc.get("x0dt", "float64"))
+
+
 def run_metropolis(sc, global_seed):
     """One real call.  Returns (res, exc, out, calls): calls = copies of every target argument."""
     from elfi.methods import mcmc
@@ -126,7 +142,7 @@ def run_metropolis(sc, global_seed):
         calls.append(np.array(x, dtype=float, copy=True).reshape(-1))   # the code passes a view it overwrites later
         return wrap(evaluate(tg, x)[1], tg["ret"])
 
-    x0 = np.array(sc["x0"], dtype=float)
+    x0 = start_obj(sc)
     sigma = np.array(sc["sigma"], dtype=float) if isinstance(sc["sigma"], list) else float(sc["sigma"])
     np.random.seed(global_seed)          # the kernel must not depend on the global generator
     res, exc, out = "ok", "", None
@@ -151,7 +167,7 @@ def record_metropolis(sc):
     res2, exc2, out2, calls2 = run_metropolis(sc, 202)
     d1 = res + exc + digest_run(out, calls)
     d2 = res2 + exc2 + digest_run(out2, calls2)
-    x0 = np.array(sc["x0"], dtype=float).reshape(-1)
+    x0 = eff_x0(sc).reshape(-1)
     t0c, t0v, k0 = evaluate(tg, x0)
     sigma = np.array(sc["sigma"], dtype=float) if isinstance(sc["sigma"], list) else float(sc["sigma"])
     # states: id 0 = params0, id i = i-th NEW argument of the target (re-evaluations of known states are not proposals)
@@ -341,6 +357,11 @@ def metropolis_scenarios(ctx, rnd):
         w = rnd.choice([0, 0, 1, 2, 3, 5, 10])
         out.append(dict(kernel="metropolis", tg=tg, d=d, x0=valid_start(rnd, tg, d, rnd.random() < 0.5), sigma=sigma, n=n, warmup=w,
                         seed=(0 if rnd.random() < 0.08 else rnd.randint(0, 2 ** 31 - 1))))
+        if rnd.random() < 0.25:
+            # the start handed over as an integer or single-precision array (same chain: the numbers are what counts)
+            cand = dict(out[-1], x0dt=rnd.choice(["int64", "float32"]))
+            if evaluate(tg, eff_x0(cand))[0] not in ("nan", "inf", "-inf"):
+                out[-1] = cand
     # starts outside the statement's hypothesis (mechanism only: +-inf starts are refused)
     out.append(dict(kernel="metropolis", tg=dict(fam="flat", box=1.0, ret="float"), d=1, x0=[2.0], sigma=0.5, n=2, warmup=0, seed=1))
     out.append(dict(kernel="metropolis", tg=dict(fam="gauss", s=1.0, nan=[0.0, 1.0], ret="float"), d=1, x0=[0.5], sigma=0.5, n=2,
